@@ -26,7 +26,7 @@ func VerifParseBodyRoundTrip() {
 	var hs [][]byte
 	for i := 0; i < k; i++ {
 		h := rt.Bytes("h")
-		rt.Assume(string(h) != "") // hashes of 1..64 bytes
+		rt.Assume(string(h) != "" && rt.LenLE(string(h), 64)) // hashes of 1..64 bytes
 		hs = append(hs, h)
 	}
 	cp := rt.Bytes("cp")
@@ -83,4 +83,35 @@ func VerifParseBodyRefusal() {
 	line, rest, found = strings.Cut(rest, "\n")
 	rt.Assert(found && trimCR(line) == "", "C11/refusal-blank-separator-present")
 	rt.Assert(string(cp) == rest, "C11/refusal-checkpoint-is-the-rest")
+}
+
+// VerifParseBodyHashLengths: the round trip for two proof hashes of EVERY pair of lengths
+// 1..64 (concrete lengths, arbitrary contents), so that buffer- or chunk-size effects of the
+// line reader show up at the exact lengths where they bite.
+func VerifParseBodyHashLengths() {
+	max := rt.Param("maxhash", 64)
+	var hs [][]byte
+	for i := 0; i < 2; i++ {
+		h := rt.Bytes("h")
+		rt.AssumeLen(string(h), rt.Choose(max)+1)
+		hs = append(hs, h)
+	}
+	cp := rt.Bytes("cp")
+	body := "old 7\n"
+	for _, h := range hs {
+		body += base64.StdEncoding.EncodeToString(h) + "\n"
+	}
+	body += "\n" + string(cp)
+	rt.Assume(rt.LenLE(string(cp), 3000))
+	gotN, gotP, gotCP, err := parseBody(&rt.StrReader{S: body})
+	rt.Cover(err == nil, "parse/lengths-roundtrip")
+	rt.Assert(err == nil, "C11/lengths-accepted")
+	if err != nil {
+		return
+	}
+	rt.Assert(gotN == 7 && len(gotP) == 2, "C11/lengths-old-size-and-proof-length")
+	if len(gotP) == 2 {
+		rt.Assert(rt.Eq(gotP[0], hs[0]) && rt.Eq(gotP[1], hs[1]), "C11/lengths-proof-hashes")
+	}
+	rt.Assert(rt.Eq(gotCP, cp), "C11/lengths-checkpoint")
 }
